@@ -1,8 +1,266 @@
-//! C18 - not built yet
-use vlib::report::{Ctx, Outcome};
+//! C18 - transactions on the listener side are atomic and isolated until discharge.
+//!
+//! Exhaustive search over histories of {declare, post(link x txn), commit, rollback, control link goes away,
+//! session end} executed on the real stack, judged against a reference model written from the statement
+//! (map txn -> ordered posts; per link the deliveries visible to the application):
+//!  * series S1-shared / S1-owned: the real client API (Controller+Transaction / OwnedTransaction) drives a real
+//!    listener (ConnectionAcceptor, SessionAcceptor with a control link acceptor, LinkAcceptor) over a vpipe; one
+//!    task per accepted receiver link drains `recv()` into the application log; the client->listener bytes are
+//!    tapped and parsed independently for the controller-side obligations;
+//!  * series S2: the scripted peer acts as the client, so that it can post to / discharge never-declared and
+//!    finished ids, and post after discharge;
+//!  * series S3: the real client API against the scripted peer acting as a coordinator that can reject a
+//!    discharge (txn-id and fail flag on the wire, reported outcome = the coordinator's).
+//! Plus a deviation-bounded schedule exploration of a commit racing with posts (two real endpoints).
+#[path = "c18_common.rs"]
+pub mod common;
+#[path = "c18_s1.rs"]
+mod s1;
+#[path = "c18_s2.rs"]
+mod s2;
+#[path = "c18_s3.rs"]
+mod s3;
+#[path = "c18_race.rs"]
+mod race;
 
-pub fn run(_ctx: &Ctx) -> Outcome {
+use common::*;
+use serde_json::json;
+use std::collections::BTreeMap;
+use std::sync::atomic::{AtomicU64, Ordering};
+use std::sync::Arc;
+use std::time::{Duration, Instant};
+use vlib::history::{search, HistOut};
+use vlib::report::{Ctx, Outcome};
+use vlib::runner::{run_exec, RunCfg, Scenario};
+
+#[derive(Debug, Clone, Default)]
+pub struct Obs {
+    pub executed: usize,
+    pub fails: Vec<(String, String)>,
+    pub state_keys: Vec<u64>,
+    pub trace: Vec<String>,
+    pub machinery: Option<String>,
+    // non-vacuity counters
+    pub declares: u64,
+    pub txn_posts: u64,
+    pub multi_frame_posts: u64,
+    pub withheld_states: u64,
+    pub commits_with_posts: u64,
+    pub refusals: u64,
+}
+
+#[derive(Default)]
+struct Counters {
+    declares: AtomicU64,
+    txn_posts: AtomicU64,
+    multi_frame_posts: AtomicU64,
+    withheld_states: AtomicU64,
+    commits_with_posts: AtomicU64,
+    refusals: AtomicU64,
+}
+
+fn run_history(series: Series, evs: Vec<Ev>, cnt: Option<&Counters>) -> HistOut {
+    let scen: Scenario<Obs> = {
+        let evs = evs.clone();
+        Arc::new(move || {
+            let evs = evs.clone();
+            match series {
+                Series::S1Shared => Box::pin(s1::scenario(false, evs)),
+                Series::S1Owned => Box::pin(s1::scenario(true, evs)),
+                Series::S2 => Box::pin(s2::scenario(evs)),
+                Series::S3 => Box::pin(s3::scenario(evs)),
+            }
+        })
+    };
+    let ex = run_exec(vec![], &RunCfg::none(), &scen);
+    let mut out = HistOut::default();
+    let tag = series.tag();
+    match ex.out {
+        Some(o) => {
+            out.executed = o.executed;
+            out.fails = o.fails.into_iter().map(|(s, d)| if s.starts_with("controller:") { (s, format!("[{tag}] {d}")) } else { (format!("{tag} {s}"), d) }).collect();
+            out.state_keys = o.state_keys;
+            out.trace = o.trace;
+            out.machinery = o.machinery;
+            if let Some(c) = cnt {
+                c.declares.fetch_add(o.declares, Ordering::Relaxed);
+                c.txn_posts.fetch_add(o.txn_posts, Ordering::Relaxed);
+                c.multi_frame_posts.fetch_add(o.multi_frame_posts, Ordering::Relaxed);
+                c.withheld_states.fetch_add(o.withheld_states, Ordering::Relaxed);
+                c.commits_with_posts.fetch_add(o.commits_with_posts, Ordering::Relaxed);
+                c.refusals.fetch_add(o.refusals, Ordering::Relaxed);
+            }
+        }
+        None => {
+            out.executed = evs.len();
+            // C18 does not speak about panics or hangs of the machinery itself: machinery error with the trace
+            out.machinery = Some(format!("{tag}: scenario died (watchdog={}) panics {:?}", ex.watchdog, ex.panics));
+        }
+    }
+    if ex.spun && out.machinery.is_none() {
+        out.machinery = Some(format!("{tag}: busy loop (>20000 polls at one virtual instant) in history {:?}", evs.iter().map(|e| ev_name(series, *e)).collect::<Vec<_>>()));
+    }
+    let lib_panics: Vec<&String> = ex.panics.iter().filter(|p| !p.contains("vcheck/src")).collect();
+    if !lib_panics.is_empty() && out.machinery.is_none() {
+        out.machinery = Some(format!("{tag}: a library task panicked in history {:?}: {:?}", evs.iter().map(|e| ev_name(series, *e)).collect::<Vec<_>>(), lib_panics));
+    }
+    out
+}
+
+/// (first depth, target depth): quick runs one depth; thorough deepens iteratively and reports the largest depth it
+/// completed inside the budget
+fn depths_for(ctx: &Ctx, s: Series) -> (usize, usize) {
+    match (ctx.quick(), s) {
+        (true, Series::S1Shared) => (5, 5),
+        (true, Series::S1Owned) => (4, 4),
+        (true, Series::S2) => (4, 4),
+        (true, Series::S3) => (4, 4),
+        (false, Series::S1Shared) => (5, 7),
+        (false, Series::S1Owned) => (5, 7),
+        (false, Series::S2) => (5, 7),
+        (false, Series::S3) => (5, 6),
+    }
+}
+
+pub fn run(ctx: &Ctx) -> Outcome {
     let mut out = Outcome::new("model_checking");
-    out.machinery_errors.push("check C18 is not built yet".into());
+    if let Some(p) = &ctx.replay {
+        return replay(p, out);
+    }
+    let t0 = Instant::now();
+    let total = Duration::from_secs_f64(ctx.budget_s);
+    let cnt = Counters::default();
+    let mut states = 0u64;
+    let mut transitions = 0u64;
+    let mut executions = 0u64;
+    let mut events = 0u64;
+    let mut truncated = false;
+    let mut samples = vec![];
+    let mut bounds = vec![];
+    let mut per_series = BTreeMap::new();
+    // signature -> (shortest history, detail, trace, series, count)
+    let mut found: BTreeMap<String, (Vec<usize>, String, Vec<String>, Series, u64)> = BTreeMap::new();
+    // budget shares: the race exploration gets what is left after the four history searches
+    let shares = [0.3, 0.25, 0.25, 0.1];
+    for (si, series) in ALL_SERIES.iter().copied().enumerate() {
+        let (d0, d1) = depths_for(ctx, series);
+        let share: f64 = shares[..=si].iter().sum();
+        let deadline = t0 + total.mul_f64(share);
+        let mut completed: Option<usize> = None;
+        let mut sample = None;
+        for depth in d0..=d1 {
+            let st = search(ALPHABET.len(), depth, ctx.threads, deadline, |h| run_history(series, h.iter().map(|i| ALPHABET[*i]).collect(), Some(&cnt)));
+            executions += st.executions;
+            events += st.events_executed;
+            for m in st.machinery {
+                out.machinery_errors.push(m);
+            }
+            for (h, sig, detail, trace) in st.violations {
+                let e = found.entry(sig).or_insert((h.clone(), detail.clone(), trace.clone(), series, 0));
+                e.4 += 1;
+                // keep the shortest failing history (failing prefix = events executed), then the smallest
+                let cur = (failing_len(&e.2), e.0.clone());
+                let new = (failing_len(&trace), h.clone());
+                if new < cur {
+                    e.0 = h;
+                    e.1 = detail;
+                    e.2 = trace;
+                    e.3 = series;
+                }
+            }
+            if st.truncated {
+                per_series.entry(series.tag().to_string()).or_insert(json!({"complete": false, "depth": 0}));
+                per_series.insert(format!("{} (cut at depth {depth})", series.tag()), json!({"executions": st.executions, "states": st.distinct_states, "transitions": st.distinct_transitions, "complete": false}));
+                break;
+            }
+            completed = Some(depth);
+            sample = st.sample_traces.into_iter().next().or(sample);
+            // states/transitions of the deepest completed search (shallower ones are subsumed)
+            per_series.insert(series.tag().to_string(), json!({"executions": st.executions, "states": st.distinct_states, "transitions": st.distinct_transitions, "pruned_disabled": st.pruned_disabled, "complete": true, "depth": depth}));
+        }
+        if let Some(j) = per_series.get(series.tag()) {
+            states += j["states"].as_u64().unwrap_or(0);
+            transitions += j["transitions"].as_u64().unwrap_or(0);
+        }
+        truncated |= completed != Some(d1);
+        bounds.push(match completed {
+            Some(d) if d == d1 => format!("{}: all histories of depth {} over {} events", series.tag(), d, ALPHABET.len()),
+            Some(d) => format!("{}: all histories of depth {} over {} events (depth {} CUT by the budget)", series.tag(), d, ALPHABET.len(), d + 1),
+            None => format!("{}: depth {} CUT by the budget, nothing completed", series.tag(), d0),
+        });
+        if let Some(t) = sample {
+            samples.push(json!({"series": series.tag(), "trace": t}));
+        }
+    }
+    for (sig, (h, detail, trace, series, n)) in found {
+        let k = failing_len(&trace);
+        let hist: Vec<usize> = h[..k.min(h.len())].to_vec();
+        let names: Vec<String> = hist.iter().map(|i| ev_name(series, ALPHABET[*i])).collect();
+        out.violation(
+            sig,
+            format!("[{}] minimal history {:?}: {detail} ({n} histories of this run end in this class)", series.tag(), names),
+            json!({"series": series.tag(), "events": hist, "event_names": names, "trace": trace}),
+        );
+    }
+    // schedule exploration: commit racing with posts
+    let r = race::run(ctx, t0 + total, &mut out);
+    out.set("states", states.max(1));
+    out.set("transitions", transitions.max(1));
+    out.set("traces_validated_against_impl", executions + r.executions);
+    out.set("executions", executions);
+    out.set("events_executed", events);
+    out.set("per_series", json!(per_series));
+    out.set("schedule_exploration", json!({"executions": r.executions, "bound": r.bound, "distinct_outcomes": r.distinct, "complete": r.complete}));
+    out.set("declares_executed", cnt.declares.load(Ordering::Relaxed));
+    out.set("transactional_posts_executed", cnt.txn_posts.load(Ordering::Relaxed));
+    out.set("multi_frame_posts_observed_on_wire", cnt.multi_frame_posts.load(Ordering::Relaxed));
+    out.set("quiescent_states_with_withheld_posts", cnt.withheld_states.load(Ordering::Relaxed));
+    out.set("commits_releasing_posts", cnt.commits_with_posts.load(Ordering::Relaxed));
+    out.set("refusals_of_unknown_or_finished_ids_observed", cnt.refusals.load(Ordering::Relaxed));
+    out.set("samples", json!(samples.into_iter().take(3).collect::<Vec<_>>()));
+    out.set("exhaustive", !truncated && r.complete);
+    out.set("bound", format!("{}; schedules: {}", bounds.join("; "), r.bound));
+    out.set(
+        "rule",
+        "states = distinct canonical observable states (reference-model state: per-slot transaction status, withheld posts per link, visible deliveries per link, discarded posts; control link attached; session alive; length of the application log) reached at quiescence by executing the real stack; transitions = distinct (state, event, state) triples",
+    );
+    out.assume("events are separated by quiescence (history search); concurrency between a commit and posts is covered by the separate schedule exploration only");
+    out.assume("'in posting order' is judged per link: deliveries on different links are drained by different application tasks and have no defined relative order");
+    out.assume("'refused with the transaction error' is read permissively: a rejected outcome, a link detach, a session end or a connection close carrying any amqp:transaction:* condition counts as refusal, as long as nothing is applied");
+    out.assume("link 1 carries one-frame messages and link 2 ~1200-byte messages that need >= 3 frames at max-frame-size 512 (size is tied to the link to keep the alphabet at 14 events)");
+    out.assume("transactional retirement and acquisition are not exercised: the statement defines no observable for them");
+    out
+}
+
+/// number of events of the history that were executed when the trace was recorded
+fn failing_len(trace: &[String]) -> usize {
+    trace.iter().filter(|l| l.starts_with("-- event")).count()
+}
+
+fn replay(p: &std::path::Path, mut out: Outcome) -> Outcome {
+    let s = std::fs::read_to_string(p).unwrap_or_default();
+    let j: serde_json::Value = serde_json::from_str(&s).unwrap_or_default();
+    let r = &j["replay"];
+    if r.get("schedule").is_some() {
+        return race::replay(r, out);
+    }
+    let series = Series::from_tag(r["series"].as_str().unwrap_or("")).unwrap_or(Series::S1Shared);
+    let evs: Vec<Ev> = r["events"].as_array().map(|a| a.iter().filter_map(|x| x.as_u64()).map(|i| ALPHABET[i as usize % ALPHABET.len()]).collect()).unwrap_or_default();
+    println!("replaying {} {:?}", series.tag(), evs.iter().map(|e| ev_name(series, *e)).collect::<Vec<_>>());
+    let o = run_history(series, evs, None);
+    for l in &o.trace {
+        println!("  {l}");
+    }
+    if let Some(m) = o.machinery {
+        out.machinery_errors.push(m);
+    }
+    for (s, d) in o.fails {
+        println!("  FAIL {s}: {d}");
+        out.violation(s, d, r.clone());
+    }
+    out.set("states", 1);
+    out.set("transitions", 1);
+    out.set("traces_validated_against_impl", 1);
+    out.set("samples", json!([r]));
     out
 }
